@@ -42,6 +42,39 @@ def results_of(h):
     return h['val'][1]
 
 
+def measurements(spec, circ, pi, pf, tag, info) -> list:
+    """Measurement placeholders of the input reappear on the physical
+    qudits that hold the measured logical qudits at the end."""
+    want = {pf[q]: ('c', q) for q in spec.get('measure') or []}
+    got = {}
+    last_on = {}
+    meas_at = {}
+    for cyc, o in circ.operations_with_cycles():
+        for q in o.location:
+            last_on[q] = (cyc, type(o.gate).__name__)
+        if type(o.gate).__name__ == 'MeasurementPlaceholder':
+            for q, reg in o.gate.measurements.items():
+                got[q] = tuple(reg)
+                meas_at[q] = cyc
+            if sorted(o.location) != sorted(o.gate.measurements):
+                return [C.V('MEASURE_MISPLACED', tag,
+                            f'measurement op at {o.location} records '
+                            f'{o.gate.measurements}', 'location-vs-record')]
+    if want:
+        info['measured_inputs'] = info.get('measured_inputs', 0) + 1
+    if got != want:
+        return [C.V('MEASURE_MISPLACED', tag,
+                    f'measurements {got}, expected {want} (pf={pf}, '
+                    f'measured {spec.get("measure")})',
+                    'missing' if not got else 'wrong-qudits')]
+    for q, cyc in meas_at.items():
+        if last_on[q][0] != cyc:
+            return [C.V('MEASURE_MISPLACED', tag,
+                        f'qudit {q} is acted on by {last_on[q][1]} after its '
+                        f'measurement', 'not-last')]
+    return []
+
+
 def check_one(rr, h, info) -> list:
     out = []
     op = h['op']
@@ -68,6 +101,7 @@ def check_one(rr, h, info) -> list:
         if circ.num_qudits != m:
             # C02 reports the width; the map cannot be evaluated
             continue
+        out += measurements(spec, circ, pi, pf, tag, info)
         u_in = CC.unitary_of(obj)
         u_out = CC.unitary_of(circ)
         resid, inf = CC.mapped_equivalence(u_in, u_out, n, m, d,
